@@ -8,22 +8,26 @@ from vlib import *
 from marshallib import *
 import marshalgen as mg
 
-THEOREMS = ["C17_int_exact", "C17_int_no_wrap", "C17_uint_exact", "C17_float32_exact", "C17_float64_exact",
-            "C17_string_exact", "C17_bytes_exact", "C17_bool_exact", "C17_bigint_exact", "C17_scalar_mismatch_is_error",
-            "C17_scalar_null_zero", "C17_scalar_faithful_except_known", "C17_scalar_faithful_refuted",
-            "C17_symtok_target_refuted", "C17_doc_annotations_refuted", "C17_decode_any_total",
-            "C17_decoder_stream_order"]
+THEOREMS = ["C17_int_exact", "C17_int_no_wrap", "C17_uint_exact", "C17_bigint_exact",
+            "C17_float32_exact", "C17_float64_exact", "C17_string_exact", "C17_bytes_exact",
+            "C17_bool_exact", "C17_scalar_mismatch_is_error", "C17_scalar_null_zero", "C17_scalar_faithful",
+            "C17_symbol_without_text_is_error", "C17_symtok_target", "C17_doc_annotations", "C17_plain_safe",
+            "C17_plain_unmarshal_safe", "C17_decode_image_faithful", "C17_decode_any_total", "C17_decoder_stream_order"]
 
 LEVEL = "proof"
-EXPLANATION = ("Gallina model of unmarshal.go/fields.go over the Ion value tree (Go/Decode.v, Go/Fields.v); theorems: for every "
-               "scalar Go target kind and every scalar Ion value the decoder stores exactly the Ion value (in range, no wrap, "
-               "float32 = IEEE narrowing without overflow) or errors, except the two panics that are proved to exist "
-               "($0 into string, any symbol into SymbolToken); the model is tied to ion.Unmarshal / Decoder by running both "
-               "on a (target type x Ion value) matrix in text and binary (K11), and every Go answer is judged by an "
-               "independent Python reading of the documented mapping.")
+EXPLANATION = ("Gallina model of unmarshal.go/fields.go over the Ion value tree (Go/Decode.v, Go/Fields.v); theorems: "
+               "(1) scalar matrix in full: every scalar target kind x every scalar Ion value stores exactly the Ion value "
+               "(in range, no wrap, float32 = IEEE narrowing without overflow) or errors, never panics; "
+               "(2) the plain universe (every kind but interface{}, nested to any depth, structs with exported non-embedded "
+               "fields): decodeTo of any well-formed value into any well-typed target returns a well-typed value or an error, "
+               "never panics, fuel = nesting depth + 1 suffices; (3) decoding the documented Ion image of any value of the "
+               "round-trip universe stores exactly that value.  The model is tied to ion.Unmarshal / Decoder by running both "
+               "on a (target type x Ion value) matrix in text and binary (K11); every Go answer is judged by an independent "
+               "Python reading of the documented mapping.")
 ASSUMPTIONS = ["Go == model only on the inputs sampled (every scalar target kind x boundary payload exhaustively)",
                "the Reader is abstracted to the value tree it yields (reader-level errors are C01..C12's business)",
-               "theorems cover scalar targets x scalar values; containers/structs are covered by correspondence + oracle only"]
+               "theorems: scalars in full; containers/structs on the plain universe (no interface{}, no embedded or unexported "
+               "fields); interface{} targets, embedded structs and annotation wrappers are covered by correspondence + oracle"]
 
 
 # ---------------------------------------------------------------------------
@@ -57,6 +61,10 @@ def represents(t, g, v):
         vf, af = w
         av = g[1][af[1][0]]
         want = ann_value(annots)
+        if af[5] == ("L", ("s",)):          # the documented []string form: the texts
+            want = [("s", a) for a in annots]
+        if af[5] == ("I",) and av[1] is not None:
+            av = av[1][1]
         got = av[1] or []
         if av[0] != "L" or [x for x in got] != want:
             return "annotation field holds %r, value has %r" % (got, want)
